@@ -143,6 +143,7 @@ type FnCtx struct {
 	props       []string // property tags for K1 obligations
 	sitecount   int
 	heapReads   int
+	dbgUses     map[string][]ssa.Value
 	pfx         string // name prefix for inlined bodies
 	inl         *inlineCtx
 	inlDepth    int
@@ -416,6 +417,11 @@ func (c *FnCtx) typeFacts(t string, gt types.Type) {
 		c.refFact(t)
 	case *types.Slice:
 		c.sliceFacts(t)
+	case *types.Interface:
+		if u.NumMethods() > 0 {
+			// a value of an interface type with methods never holds a bare map/slice/scalar
+			c.fact(fmt.Sprintf("(or (= %s a_nil) ((_ is a_other) %s))", t, t))
+		}
 	}
 }
 
@@ -838,6 +844,9 @@ func (c *FnCtx) typeFactsG(t string, gt types.Type) {
 		}
 	case *types.Interface:
 		c.gfact(fmt.Sprintf("(anywf %s %s)", t, wm))
+		if u.NumMethods() > 0 {
+			c.gfact(fmt.Sprintf("(or (= %s a_nil) ((_ is a_other) %s))", t, t))
+		}
 	case *types.Pointer, *types.Map, *types.Chan:
 		c.gfact(fmt.Sprintf("(and (>= %s 0) (<= %s %s))", t, t, wm))
 	case *types.Slice:
